@@ -371,11 +371,21 @@ fn main() {
             ));
         }
     }
+    let run_thorough = run.tier == vcore::Tier::Thorough;
     for (sname, prelude, bulk_ops, max_d) in start_states {
         if run.violation_count() > 0 || Instant::now() >= deadline {
             break;
         }
         for depth in 1..=max_d {
+          // the side-car backends (two raw objects per logical object, own commit
+          // order inside one put / delete) see the checkpointed start state too
+          let backends: Vec<Backend> = if sname == "flushed2" && depth <= 2 {
+              vec![Backend::Mem, Backend::Meta, Backend::Enc]
+          } else {
+              vec![Backend::Mem]
+          };
+          for backend in backends {
+            let backend = &backend;
             let total = (bulk_ops.len() as u64).pow(depth as u32);
             let mut items: Vec<Vec<Op>> = Vec::new();
             for n in 0..total {
@@ -392,7 +402,9 @@ fn main() {
                 if Instant::now() > deadline {
                     return None;
                 }
-                Some(run_workload(&prelude, &w, starts[0], Backend::Mem, depth <= 1, false, &shared))
+                // nested crashes inside the recovery: always on the plain backend, on the side-car ones in the thorough tier
+                NESTED.with(|n| n.set(matches!(backend, Backend::Mem) || run_thorough));
+                Some(run_workload(&prelude, &w, starts[0], *backend, depth <= 1 && matches!(backend, Backend::Mem), false, &shared))
             });
             let mut finished = 0u64;
             for t in tallies.into_iter().flatten() {
@@ -411,10 +423,11 @@ fn main() {
                 }
             }
             if finished < total {
-                run.cap_hit(&format!("time budget inside the start-state pass {sname} at depth {depth}: {finished}/{total} workloads"));
+                run.cap_hit(&format!("time budget inside the start-state pass {sname} ({backend:?}) at depth {depth}: {finished}/{total} workloads"));
                 break;
             }
-            completed.push(format!("start-state {sname}:depth{depth}:alphabet{}", bulk_ops.len()));
+            completed.push(format!("start-state {sname}:{backend:?}:depth{depth}:alphabet{}", bulk_ops.len()));
+          }
         }
     }
     let distinct = shared.seen.lock().len() as u64;
